@@ -358,6 +358,8 @@ func checkC18(c *Ctx, e *Env) {
 		h := r.byKey[hk]
 		return h != nil && h.EP.SignerField == "Authority"
 	})
+	importObligations(c, e, checkC07, "C07", "C18.MAXFEE", "fees#charged-as-configured", "with the configured fee rates a purchase succeeds exactly when the stated max fee covers the buyer fee that is actually charged (rounded down to whole units)", func(o *Oblig) bool { return o.Rule == "C07.GUARDS" && strings.Contains(o.Construct, "max-fee") })
+	importObligations(c, e, checkC03, "C03", "C18.ASKDENOM", "allowed denominations#usable-for-their-own-market", "a denomination governance has allowed can be sold and bought in only if Sell / UpdateSellOrders file the order under a market of exactly that denomination", func(o *Oblig) bool { return o.Rule == "C03.ASKDENOM" })
 	c.Min("parameter parse sites", 2, len(pks))
 	// ---------------- PARAM: NewCoin amounts and bank coins
 	bound := feeVal.Attrs["parse(req.SellerPercentageFee)"].NonNeg
